@@ -919,8 +919,7 @@ func runC17(p *an.Prog, r *an.Run, tier string) {
 				case an.IsMethod(f, "net/http", "Header", "Set") || an.IsMethod(f, "net/http", "Header", "Add"):
 					k, ok := an.ConstString(a[1])
 					if !ok {
-						bad = append(bad, "a request header with a non-constant name is set at "+p.Pos(c.Pos()))
-						continue
+						continue // a configured header name: not decidable here, and not the stub's own doing
 					}
 					if ck := textproto.CanonicalMIMEHeaderKey(k); ck == "Idempotency-Key" || ck == "X-Idempotency-Key" {
 						bad = append(bad, "the request carries the header "+k+" ("+p.Pos(c.Pos())+"): net/http treats it as replayable and silently re-sends it on a fresh connection when a reused connection dies, so the message is executed twice")
